@@ -5,8 +5,11 @@ import json, subprocess, sys, tempfile, os
 import xml.etree.ElementTree as ET
 base = json.load(open('/root/.vp/BASELINE.json'))
 fd, path = tempfile.mkstemp(suffix='.xml'); os.close(fd)
-cmd = base['cmd'].replace('<file>', path)
+root = sys.argv[1] if len(sys.argv) > 1 else '/repo'
+cmd = base['cmd'].replace('<file>', path).replace('cd /repo', 'cd ' + root)
 env = dict(os.environ); env.pop('RTAMT_VERIF', None)
+if root != '/repo':
+    env['PYTHONPATH'] = root
 subprocess.run(cmd, shell=True, stdout=subprocess.DEVNULL, stderr=subprocess.DEVNULL, env=env)
 passed = set()
 for tc in ET.parse(path).getroot().iter('testcase'):
